@@ -15,7 +15,7 @@ VARIABLE c
 Obs == ndJsonDeserialize("obs.ndjson")
 
 Mk(m) == [nil |-> m.nil, paths |-> m.paths]
-OptsOf(t) == [t.o EXCEPT !.M = Mk(t.o.M), !.R = Mk(t.o.R), !.mm = Mk(t.o.mm)]
+OptsOf(t) == [t.o EXCEPT !.M = Mk(t.o.M), !.R = Mk(t.o.R), !.mm = Mk(t.o.mm), !.W = Mk(t.o.W), !.mw = Mk(t.o.mw)]
 SubOf(s) == [pid |-> s.pid, updatesOnly |-> s.updatesOnly, mask |-> Mk(s.mask), inc |-> s.inc]
 If(b, name) == IF b THEN {} ELSE {name}
 
@@ -50,13 +50,19 @@ CollWriteFails(t, r) ==
                                        ELSE "event-content"))
              : s \in 1..Len(t.subs) }
 
+\* a write the properties do not settle (update mask naming a parent of writable fields): a
+\* rejection must still be a clean InvalidArgument, anything else is left unjudged
+CollJudge(t, r) == IF r.err # "Unsettled" THEN CollWriteFails(t, r)
+                   ELSE IF t.err = "InvalidArgument" THEN CollWriteFails(t, [r EXCEPT !.err = "InvalidArgument"])
+                   ELSE {}
+
 CollFails(t) ==
   CASE t.op = "Subscribe" ->
          UNION { LET sub == SubT(t, s) IN
                  If(t.deliv[s] = (IF sub.pid = "" THEN CollSeed(t.pre, sub) ELSE PidSeed(t.pre, sub)),
                     DelivTag(sub) \o "seed") : s \in 1..Len(t.subs) }
-    [] t.op = "Update" -> CollWriteFails(t, CollUpdate(t.pre, t.now, t.icpt, t.id, t.msg, OptsOf(t)))
-    [] t.op = "Add" -> CollWriteFails(t, CollUpdate(t.pre, t.now, t.icpt, t.id, t.msg,
+    [] t.op = "Update" -> CollJudge(t, CollUpdate(t.pre, t.now, t.icpt, t.id, t.msg, OptsOf(t)))
+    [] t.op = "Add" -> CollJudge(t, CollUpdate(t.pre, t.now, t.icpt, t.id, t.msg,
                                                     [OptsOf(t) EXCEPT !.xa = TRUE, !.cia = TRUE]))
     [] t.op = "Delete" -> CollWriteFails(t, CollDelete(t.pre, t.now, t.icpt, t.id, OptsOf(t)))
     [] t.op = "Get" ->
@@ -76,7 +82,9 @@ ValFails(t) ==
   CASE t.op = "Subscribe" ->
          UNION { If(t.deliv[s] = ValSeed(t.vpre, SubOf(t.subs[s])), "C04:seed") : s \in 1..Len(t.subs) }
     [] t.op = "Set" ->
-         LET r == ValSet(t.vpre, t.now, t.msg, OptsOf(t)) IN
+         LET r0 == ValSet(t.vpre, t.now, t.msg, OptsOf(t))
+             r == IF r0.err = "Unsettled" THEN [r0 EXCEPT !.err = "InvalidArgument"] ELSE r0 IN
+         IF r0.err = "Unsettled" /\ t.err # "InvalidArgument" THEN {} ELSE
          If(t.panic = "", "C01:panic")
          \cup If(t.err = r.err, "C01:err")
          \cup If(t.ret = r.ret, "C01:ret")
